@@ -347,7 +347,7 @@ func genRect(rng *rand.Rand, w int) lpoly {
 				rot := rng.Intn(len(hole))
 				hole = append(hole[rot:], hole[:rot]...)
 			}
-			if rng.Intn(4) == 0 && top-bot >= 12 && hb-ha >= 10 {
+			if rng.Intn(2) == 0 && top-bot >= 12 && hb-ha >= 10 {
 				// keyhole hole: the outline of the hole, a slit of one lattice unit at its left side, and an island inside it;
 				// the two ends of the slit fall into one pixel, so the routed hole splits into the outline and the island
 				m := (bot+top)/2/4*4 + 1
@@ -356,6 +356,12 @@ func genRect(rng *rand.Rand, w int) lpoly {
 				if rng.Intn(2) == 0 {
 					rot := rng.Intn(len(hole))
 					hole = append(hole[rot:], hole[:rot]...)
+				}
+				// the island may have a courtyard of its own: after the slit has closed it is a hole of the nested island, not of the shell
+				cx, cy := (ha+g+hb-g+ha+g)/3, m
+				if hb-ha >= 18 && top-bot >= 18 {
+					p = append(p, hole)
+					hole = [][2]int{{cx - 1, cy - 1}, {cx - 1, cy + 2}, {cx + 2, cy + 2}, {cx + 2, cy - 1}}
 				}
 			}
 			p = append(p, hole)
